@@ -7,6 +7,12 @@ CLAIMS = {
  "C01": dict(
     text="Proof (Verus, unbounded) of the per-call contracts that carry 'every hunk line once, in order, intact, not moved past a header': handle_hunk_line extends the ghost sequence all_lines = rendered ++ pending by exactly one entry (the prepared line of the new state's marker width) and never reorders it; paint_buffered/emit/prepare/emit_line_unchanged and every file-header handler preserve all_lines; the output buffer is empty at every direct write (OD); detect_source's table. Per-call invariants quantify over all inputs and histories, which tests cannot.",
     note=_COMMON_NOTE + " Not decided: ansi_term/syntect string assembly inside paint_lines, the side-by-side path, what the regexes accept."),
+ "C03": dict(
+    text="Proof (Verus) of the safety obligations the verifier generates for every extracted function of every unit - no arithmetic overflow/underflow, no division by zero, indices and slices in bounds, unwrap only on Some/Ok, panic!/unreachable!/delta_unreachable sites unreachable, termination where a decreases clause is given - plus the named crash-corner contracts (hunk-header coordinates non-empty, get_style defined, n_parents known).",
+    note=_COMMON_NOTE + " Covers only the functions listed in the evidence (functions_under_contract); panics in unextracted code and in dependencies, allocation size and main.rs are not decided. Preconditions tagged *.assumed (srcinv, sm_wf) are state-machine invariants assumed at handler entry."),
+ "C05": dict(
+    text="Proof (Verus) of the line-number contracts: the seven-row table of linenumbers_and_styles (which number is shown, which counter moves, wrapped rows carry none), per-hunk initialisation from the first/last coordinate of the parsed header, the hunk header's number is the new-file start and its path is the plus file unless that is /dev/null.",
+    note=_COMMON_NOTE + " format::pad, the number-format regex and the side-by-side compensation loop are not (yet) under contract."),
  "C04": dict(
     text="Proof (Verus) that emit_line_unchanged flushes and then writes exactly format_raw_line(raw_line) followed by a newline, that format_raw_line is the identity unless hyperlinks are on and stdout is a tty, and of the 'decline' facet of the handlers under contract (predicate false => Ok(false), nothing written, state unchanged).",
     note=_COMMON_NOTE + " Conditional on 'no handler's predicate holds' (regex semantics are not modelled)."),
@@ -21,7 +27,7 @@ CLAIMS = {
     note=_COMMON_NOTE + " Exact header counts over whole histories and box drawing are not decided."),
 }
 _NOT_YET = "check not built yet in this session (planned, see DESIGN.md section 4)"
-NA = {p: _NOT_YET for p in ["C02","C03","C05","C06","C07","C08","C09","C12","C13","C15","C16","C17","C19","C20"]}
+NA = {p: _NOT_YET for p in ["C02","C06","C07","C08","C09","C12","C13","C15","C16","C17","C19","C20"]}
 NA["C18"] = "quantifies over OS-level fault sequences, child exit statuses and pager selection (run_app / OutputType::try_pager: Command::spawn, wait, process::exit); neither installed deductive verifier has a model of these and no function with a meaningful contract can be separated without refactoring unguarded source (DESIGN.md section 5)"
 for _p in CLAIMS:
     CLAIMS[_p].setdefault("technique", _V)
